@@ -43,16 +43,17 @@ func newKey(seed uint64, name string) key {
 
 // world is the per-run universe: keys, parameters, nodes.
 type world struct {
-	restoreParams func() // undoes changes to package-level parameters (params.UserVerifyTxn) made for this run
-	wltServ  *wallet.Service // nil except in the API engine
-	c        *sim.Ctx
-	pubKey   key // block publisher
-	genKey   key // owner of the genesis output
-	forger   key // somebody else's key
-	clients  []key
-	locked   key // a locked distribution address
-	unlocked key // an unlocked distribution address
-	byAddr   map[model.Addr]*key
+	oversize      bool            // the next fat transaction is made larger than the transaction size limits
+	restoreParams func()          // undoes changes to package-level parameters (params.UserVerifyTxn) made for this run
+	wltServ       *wallet.Service // nil except in the API engine
+	c             *sim.Ctx
+	pubKey        key // block publisher
+	genKey        key // owner of the genesis output
+	forger        key // somebody else's key
+	clients       []key
+	locked        key // a locked distribution address
+	unlocked      key // an unlocked distribution address
+	byAddr        map[model.Addr]*key
 
 	genCoins uint64
 	genTime  uint64
@@ -96,7 +97,7 @@ func (w *world) visorConfig(publisher bool) visor.Config {
 }
 
 func openBolt(path string) (*dbutil.DB, error) {
-	db, err := bolt.Open(path, 0o600, &bolt.Options{Timeout: 0, InitialMmapSize: 1 << 22})
+	db, err := bolt.Open(path, 0o600, &bolt.Options{Timeout: 0, InitialMmapSize: 1 << 26})
 	if err != nil {
 		return nil, err
 	}
